@@ -1,6 +1,9 @@
 // Positive fixtures: constructs the zero-expected rules must keep matching (pushed through the same extractor).
 #include "OP2Utility.h"
 #include <vector>
+#include <stdexcept>
+#include <array>
+#include <string>
 #include <cstdint>
 
 namespace fixture {
@@ -73,4 +76,18 @@ struct Entries {
 		return items[index];
 	}
 };
+
+// R-TAINT (C string): a fixed buffer filled from a stream and then read as a NUL-terminated string
+inline std::string MarkerText(Stream::Reader& reader) {
+	std::array<char, 10> marker;
+	reader.Read(marker);
+	return std::string(marker.data());
+}
+
+// R-ERR (discarded exception): the exception object is built but never thrown
+inline void CheckTotal(uint32_t expected, uint32_t actual) {
+	if (expected != actual) {
+		std::runtime_error("Totals do not match: " + std::to_string(actual));
+	}
+}
 }
